@@ -63,3 +63,12 @@ mut("handler_priority_numpy_over_awkward", "src/vector/_methods.py", '    "vecto
 mut("flavor_of_all_instead_of_any", "src/vector/_methods.py", "is_momentum = any(isinstance(obj, Momentum) for obj in objects)", "is_momentum = all(isinstance(obj, Momentum) for obj in objects if isinstance(obj, Vector))", ["C05"], "momentum only if every operand is momentum")
 mut("cross_accepts_4d", "src/vector/_methods.py", '        if dim(self) != 3 or dim(other) != 3:\n            raise TypeError("cross is only defined for 3D vectors")', '        if dim(self) < 3 or dim(other) < 3:\n            raise TypeError("cross is only defined for 3D vectors")', ["C05"], "cross no longer rejects 4D operands")
 mut("momentum3d_projection_generic", "src/vector/backends/numpy.py", "MomentumNumpy3D.ProjectionClass2D = MomentumNumpy2D", "MomentumNumpy3D.ProjectionClass2D = VectorNumpy2D", ["C04"], "projection of a 3D momentum NumPy array to 2D loses the flavor")
+
+# --- synonyms (C14) and in-place updates (C15) -------------------------------------------------------------
+mut("momentum4d_e_getter_returns_tau", "src/vector/_methods.py", "    @property\n    def e(self) -> ScalarCollection:\n        return self.t", "    @property\n    def e(self) -> ScalarCollection:\n        return self.tau", ["C14"], "the synonym e returns tau instead of t")
+mut("numpy_getitem_M_not_mapped", "src/vector/_methods.py", '    "M": "tau",\n    "m": "tau",\n    "mass": "tau",\n}\n\n\n_coordinate_order', '    "m": "tau",\n    "mass": "tau",\n}\n\n\n_coordinate_order', ["C14", "C06"], "M dropped from the synonym table used by NumPy item access, setters and constructors")
+mut("pt_setter_reads_stored_slot", "src/vector/backends/object.py", "    @pt.setter\n    def pt(self, pt: float) -> None:\n        self.azimuthal = AzimuthalObjectRhoPhi(pt, self.phi)\n\n    @property\n    def pz(self) -> float:\n        return super().pz\n\n    @pz.setter\n    def pz(self, pz: float) -> None:\n        self.longitudinal = LongitudinalObjectZ(pz)\n\n    @property\n    def E(self)",
+    "    @pt.setter\n    def pt(self, pt: float) -> None:\n        self.azimuthal = AzimuthalObjectRhoPhi(pt, self.azimuthal[1])\n\n    @property\n    def pz(self) -> float:\n        return super().pz\n\n    @pz.setter\n    def pz(self, pz: float) -> None:\n        self.longitudinal = LongitudinalObjectZ(pz)\n\n    @property\n    def E(self)", ["C14", "C15"], "4D momentum pt setter takes the second stored azimuthal number as phi (wrong when stored as x, y)")
+mut("replace_data_theta_uses_eta", "src/vector/backends/object.py", "obj.longitudinal = LongitudinalObjectTheta(result.theta)", "obj.longitudinal = LongitudinalObjectTheta(result.eta)", ["C15"], "in-place operators on theta-stored objects store eta under theta")
+mut("isub_adds", "src/vector/backends/object.py", "return _replace_data(self, numpy.subtract(self, other))", "return _replace_data(self, numpy.add(self, other))", ["C15"], "-= adds")
+mut("iadd_returns_new_object", "src/vector/backends/object.py", "        return _replace_data(self, numpy.add(self, other))", "        return numpy.add(self, other)", ["C15"], "+= rebinds the name to a new object (identity and coordinate system lost)")
